@@ -88,13 +88,22 @@ class SDate:
 class SList:
     """List of symbolic length. Mutable (python object identity = aliasing)."""
 
-    def __init__(self, length, arr, ety):
+    def __init__(self, length, arr, ety, whole=None):
         self.length = length
         self.arr = arr
         self.ety = ety
+        self._whole = (whole, arr) if whole is not None else None  # single SMT value this view was unpacked from
+
+    @property
+    def whole(self):
+        if self._whole is not None and self._whole[1] is self.arr:
+            return self._whole[0]
+        return None
 
     def copy(self):
-        return SList(self.length, self.arr, self.ety)
+        r = SList(self.length, self.arr, self.ety)
+        r._whole = self._whole
+        return r
 
 
 class SMap:
@@ -418,7 +427,7 @@ class TListVal(Ty):
 
     def wrap(self, term):
         S = self.sort()
-        return SList(sint(z3.simplify(S.len(term))), z3.simplify(S.arr(term)), self.ety)
+        return SList(sint(z3.simplify(S.len(term))), z3.simplify(S.arr(term)), self.ety, whole=term)
 
     def facts(self, term):
         return [self.sort().len(term) >= 0]
@@ -754,6 +763,8 @@ def eq_term(ctx: Ctx, a, b):
     if isinstance(a, SList) and isinstance(b, SList):
         if a.arr.eq(b.arr) and z3.is_true(z3.simplify(zint(a.length) == zint(b.length))):
             return True
+        if a.whole is not None and b.whole is not None:
+            return a.whole == b.whole  # quantifier-free (whole-value equality implies list equality)
         i = z3.Int(ctx.fresh_name("eqi"))
         return z3.And(
             zint(a.length) == zint(b.length),
@@ -768,6 +779,8 @@ def eq_term(ctx: Ctx, a, b):
             parts.append(z3.Select(s.arr, i) == s.ety.unwrap(ctx, x))
         return z3.And(*parts)
     if isinstance(a, SMap) and isinstance(b, SMap):
+        if a.has.eq(b.has) and a.val.eq(b.val):
+            return True
         k = z3.Const(ctx.fresh_name("mk"), a.kty.sort())
         return z3.And(
             z3.ForAll([k], z3.Select(a.has, k) == z3.Select(b.has, k)),
@@ -946,7 +959,7 @@ def binop(ctx: Ctx, op: str, a, b):
             a = dict_to_smap(ctx, a, b.kty, b.vty)
         if isinstance(b, dict):
             b = dict_to_smap(ctx, b, a.kty, a.vty)
-        k = z3.Const(ctx.fresh_name("uk"), a.kty.sort())
+        k = z3.Const("uk", a.kty.sort())  # bound: a fixed name keeps identical unions syntactically equal
         has = z3.Lambda([k], z3.Or(z3.Select(a.has, k), z3.Select(b.has, k)))
         val = z3.Lambda([k], z3.If(z3.Select(b.has, k), z3.Select(b.val, k), z3.Select(a.val, k)))
         return SMap(has, val, a.kty, a.vty)
@@ -995,7 +1008,7 @@ def str_concat(a, b):
 def slist_concat(ctx, a, b):
     a = to_slist(ctx, a, b.ety if isinstance(b, SList) else None)
     b = to_slist(ctx, b, a.ety)
-    i = z3.Int(ctx.fresh_name("cci"))
+    i = z3.Int("cci")
     la = zint(a.length)
     arr = z3.Lambda([i], z3.If(i < la, z3.Select(a.arr, i), z3.Select(b.arr, i - la)))
     return SList(sint(la + zint(b.length)), arr, a.ety)
@@ -1216,7 +1229,7 @@ def _slice(ctx, v, sl: slice):
         n = v.length
         lo, hi = _clamp(ctx, sl.start, n, 0), _clamp(ctx, sl.stop, n, n)
         zlo, zhi = zint(lo), zint(hi)
-        i = z3.Int(ctx.fresh_name("sli"))
+        i = z3.Int("sli")
         arr = z3.Lambda([i], z3.Select(v.arr, i + zlo))
         return SList(sint(z3.If(zhi > zlo, zhi - zlo, 0)), arr, v.ety)
     raise Unsupported(f"slice on {type(v).__name__}")
